@@ -7,14 +7,18 @@ package agent
 
 import (
 	"bufio"
+	"context"
+	sqldriver "database/sql/driver"
 	"encoding/json"
 	"fmt"
 	"io"
 	"os"
 	"os/exec"
+	"runtime/debug"
 
 	"github.com/alicebob/sqlittle"
 	sdb "github.com/alicebob/sqlittle/db"
+	drv "github.com/alicebob/sqlittle/driver"
 
 	"verif/ops"
 	"verif/pg"
@@ -36,6 +40,7 @@ type Req struct {
 	StopAt int      `json:"stop_at"`  // callback asks to stop after this many rows
 	PanicAt int     `json:"panic_at"` // callback panics at this row (1-based)
 	FailRead int    `json:"fail_read"` // k-th page read of the op returns an error
+	CancelAt int    `json:"cancel_at"` // drvselect: cancel the context after this many rows
 	Until  string   `json:"until"`    // resume until: any | callback | lock | return
 }
 
@@ -54,10 +59,12 @@ type Event struct {
 	Skipped int         `json:"skipped,omitempty"`
 	Pages  int          `json:"pages"`  // page reads so far in this operation
 	Locked bool         `json:"locked"` // between lock-ok and unlock, as seen by the tracing pager
-	LockOutcome string  `json:"lock_outcome"` // "", "ok" or "fail": the first lock attempt of this operation
+	LockOutcome string  `json:"lock_outcome"` // "", "ok" or "fail": the latest lock attempt of this operation
+	LockEvents  int     `json:"lock_events"`  // lock attempts so far in this operation
 }
 
 type handle struct {
+	lockEvents  int
 	lockOutcome string
 	pages  int
 	locked bool
@@ -70,12 +77,14 @@ type handle struct {
 }
 
 func (h *handle) park(ev Event) {
-	ev.Pages, ev.Locked, ev.LockOutcome = h.pages, h.locked, h.lockOutcome
+	ev.Pages, ev.Locked, ev.LockOutcome, ev.LockEvents = h.pages, h.locked, h.lockOutcome, h.lockEvents
 	h.events <- ev
 	<-h.resume
 }
 
 type injectedPanic struct{}
+
+func debugStack() string { return string(debug.Stack()) }
 
 // Main is the agent's server loop.
 func Main() int {
@@ -153,6 +162,7 @@ func Main() int {
 			h.pages = 0
 			h.locked = false
 			h.lockOutcome = ""
+			h.lockEvents = 0
 			h.tr.Reads = 0
 			h.tr.FailAt = rq.FailRead
 			rq := rq
@@ -167,14 +177,12 @@ func Main() int {
 					h.trace = append(h.trace, fmt.Sprintf("page %d", n))
 				case "lock-ok":
 					h.locked = true
-					if h.lockOutcome == "" {
-						h.lockOutcome = "ok"
-					}
+					h.lockOutcome = "ok"
+					h.lockEvents++
 					h.trace = append(h.trace, kind)
 				case "lock-fail":
-					if h.lockOutcome == "" {
-						h.lockOutcome = "fail"
-					}
+					h.lockOutcome = "fail"
+					h.lockEvents++
 					h.trace = append(h.trace, kind)
 				case "unlock":
 					h.locked = false
@@ -191,6 +199,77 @@ func Main() int {
 					op.Key = sqlittle.Key(k)
 				}
 				h.park(Event{Kind: "start"})
+				if rq.Kind == "drvselect" {
+					// through the database/sql driver's Stmt/Rows on this handle: the producer
+					// goroutine parks at pager events, the consumer (this goroutine) at every row
+					ev := Event{Kind: "returned"}
+					func() {
+						defer func() {
+							if r := recover(); r != nil {
+								ev.Panic = fmt.Sprintf("%v | %s", r, debugStack())
+							}
+						}()
+						cols := "*"
+						if len(rq.Cols) > 0 {
+							cols = ""
+							for i, c := range rq.Cols {
+								if i > 0 {
+									cols += ", "
+								}
+								cols += `"` + c + `"`
+							}
+						}
+						stmt := drv.VerifStatement(h.d, "SELECT "+cols+" FROM "+rq.Table)
+						ctx, cancel := context.WithCancel(context.Background())
+						defer cancel()
+						rowsI, err := stmt.QueryContext(ctx, nil)
+						if err != nil {
+							ev.Err = err.Error()
+							return
+						}
+						n := 0
+						var ferr error
+						for {
+							if rq.StopAt > 0 && n >= rq.StopAt {
+								break
+							}
+							if rq.CancelAt > 0 && n >= rq.CancelAt {
+								cancel()
+								break
+							}
+							dest := make([]sqldriver.Value, len(rowsI.Columns()))
+							if err := rowsI.Next(dest); err != nil {
+								if err != io.EOF {
+									ferr = err
+								}
+								break
+							}
+							er := make([][]string, len(dest))
+							for i, v := range dest {
+								er[i] = sq.EncVal(v)
+							}
+							ev.Rows = append(ev.Rows, er)
+							n++
+							// the consumer does not park: only the producer goroutine is ever
+							// parked (at pager events), so exactly one goroutine decides the order
+						}
+						cerr := rowsI.Close()
+						if ferr == nil {
+							ferr = cerr
+						}
+						if ferr != nil {
+							ev.Err = ferr.Error()
+						}
+						ev.Calls = n
+					}()
+					ev.OK = ev.Err == ""
+					ev.Trace = h.trace
+					h.tr.Event = nil
+					h.busy = false
+					ev.Pages, ev.Locked, ev.LockOutcome, ev.LockEvents = h.pages, h.locked, h.lockOutcome, h.lockEvents
+					h.events <- ev
+					return
+				}
 				res := ops.Run(h.d, op, func(i int) {
 					h.trace = append(h.trace, "callback")
 					h.park(Event{Kind: "callback", N: i})
@@ -220,7 +299,7 @@ func Main() int {
 				}
 				h.tr.Event = nil
 				h.busy = false
-				ev.Pages, ev.Locked, ev.LockOutcome = h.pages, h.locked, h.lockOutcome
+				ev.Pages, ev.Locked, ev.LockOutcome, ev.LockEvents = h.pages, h.locked, h.lockOutcome, h.lockEvents
 				h.events <- ev
 			}()
 			reply(<-h.events)
